@@ -230,6 +230,7 @@ func (r *yieldRewriter) rewriteStmt(
 			// ↓↓ trival branch ↓↓
 			// rewrite next stmt in current block
 			// no need combine cause of prev stmt is trival
+			r.assert(r.mustNoYield(stmt), stmt, "yield not supported here")
 			children.push(stmt, kindTrival)
 			return children
 		}
@@ -303,6 +304,9 @@ func (r *yieldRewriter) rewriteStmt(
 		// ↓↓ trival branch ↓↓
 		// all other stmt are trival,
 		// no rewriting, no combine
+		// emitted unchanged, so a yield inside (go Yield(), range over ptr of array /
+		// type param which rewriteRanges left alone, ...) would become a no-op call
+		r.assert(r.mustNoYield(stmt), stmt, "yield not supported in %T", stmt)
 		children.push(stmt, kindTrival)
 		return children
 	}
